@@ -47,19 +47,19 @@ def planSameV (e : Option Pod) (n : Nat) (np op : PodObj) : List Micro :=
   (if asgOf e then [.used n np.id (some op) (some np)]
    else if np.hasNode && !np.term then [.setAsg n np.id true, .used n np.id none (some np)] else [])
 
-def planUpdateV (st : Nat → Option Bool) (ent : Nat → Option Pod) (newQ oldQ : Nat) (np op : PodObj) : List Micro :=
+def planUpdateV (stNew : Option Bool) (eNew eOld : Option Pod) (newQ oldQ : Nat) (np op : PodObj) : List Micro :=
   if oldQ = newQ then
-    match st newQ with
+    match stNew with
     | none => []
     | some _ =>
       if !np.ign then
-        if (ent newQ).isSome then planSameV (ent newQ) newQ np op else planAddTail newQ np
-      else if (ent newQ).isSome then planRemoveV (ent newQ) oldQ op false else []
+        if eNew.isSome then planSameV eNew newQ np op else planAddTail newQ np
+      else if eNew.isSome then planRemoveV eNew oldQ op false else []
   else
-    (if (ent oldQ).isSome then planRemoveV (ent oldQ) oldQ op true else []) ++
-    (match st newQ with
+    (if eOld.isSome then planRemoveV eOld oldQ op true else []) ++
+    (match stNew with
      | none => []
-     | some _ => if !(ent newQ).isSome && !np.ign then planAddTail newQ np else [])
+     | some _ => if !eNew.isSome && !np.ign then planAddTail newQ np else [])
 
 /-- a pod event delivered to GroupQuotaManager -/
 inductive PodEv where
@@ -80,7 +80,7 @@ def PodEv.op : PodEv → Op
 def PodEv.planV (st : Nat → Option Bool) (ent : Nat → Option Pod) : PodEv → List Micro
   | .add n p => planAddV (st n) (ent n) n p
   | .del n p => planDeleteV (ent n) n p
-  | .upd a b np op => planUpdateV st ent a b np op
+  | .upd a b np op => planUpdateV (st a) (ent a) (ent b) a b np op
 
 def PodEv.plan (s : State) (ev : PodEv) : List Micro := ev.planV (stat s) (fun m => entry s m ev.id)
 
@@ -208,7 +208,8 @@ theorem run_planSame {s : State} (hp : PodsOK s) {n : Nat} {np op : PodObj} {q :
   · simp [runMicros, mstep]
 
 theorem run_planUpdate {s : State} (hp : PodsOK s) (newQ oldQ : Nat) (np op : PodObj) (hid : np.id = op.id) :
-    runMicros s (planUpdateV (stat s) (fun m => entry s m np.id) newQ oldQ np op) = onPodUpdate s newQ oldQ np op := by
+    runMicros s (planUpdateV (stat s newQ) (entry s newQ np.id) (entry s oldQ np.id) newQ oldQ np op) =
+      onPodUpdate s newQ oldQ np op := by
   unfold planUpdateV onPodUpdate
   by_cases hne : oldQ = newQ
   · subst hne
@@ -361,6 +362,137 @@ theorem safe_planSameV {s : State} {n : Nat} {np op : PodObj} {e : Pod}
   cases hasg : e.assigned <;> cases hb : (np.hasNode && !np.term) <;>
     simp [planSameV, asgOf, hasg, hb, FSafeRun, frun, fok, fstep, FSettled, dR, dN, reqOf, npOf, w, gGhost, gAsg,
       hreq, hnp, hnnN, hnnO] <;>
-    sorry
+    (have h1 : 0 ≤ (if np.np = true then np.req else 0) := by split <;> omega
+     generalize (if np.np = true then np.req else 0) = x at *
+     generalize (if op.np = true then op.req else 0) = y at *
+     omega)
+
+theorem entry_some {s : State} {n i : Nat} {e : Pod} (h : entry s n i = some e) :
+    ∃ q, get? s n = some q ∧ getPod q.pods i = some e := by
+  simp only [entry] at h
+  cases hq : get? s n with
+  | none => simp [hq] at h
+  | some q => simp only [hq] at h; exact ⟨q, rfl, h⟩
+
+theorem fsafe_nil (s : State) (i n : Nat) :
+    (∀ m ∈ ([] : List Micro), m.grp = n) ∧
+    FSafeRun (stat s n) i (focus (localOf s (cntOf s) i) n) [] ∧
+    FSettled (frun (stat s n) (focus (localOf s (cntOf s) i) n) []) :=
+  ⟨fun _ h => by simp at h, trivial, fsettled_focus s i n⟩
+
+/-- removal part of OnPodUpdate / OnPodDelete on the group the pod is (perhaps) cached in -/
+theorem removePart_ok {s : State} {n i : Nat} {p : PodObj} (uf : Bool) (hi : p.id = i) (hnn : 0 ≤ p.req)
+    (hq : ∀ q, get? s n = some q → q.max.isSome = true ∧ Consistent q p) :
+    (∀ m ∈ (if (entry s n i).isSome then planRemoveV (entry s n i) n p uf else []), m.grp = n) ∧
+    FSafeRun (stat s n) i (focus (localOf s (cntOf s) i) n)
+      (if (entry s n i).isSome then planRemoveV (entry s n i) n p uf else []) ∧
+    FSettled (frun (stat s n) (focus (localOf s (cntOf s) i) n)
+      (if (entry s n i).isSome then planRemoveV (entry s n i) n p uf else [])) := by
+  cases he : entry s n i with
+  | none => simpa using fsafe_nil s i n
+  | some e =>
+    obtain ⟨q, hq1, hg1⟩ := entry_some he
+    obtain ⟨hmax, hcons⟩ := hq q hq1
+    obtain ⟨hreq, hnp⟩ := hcons e (by rw [hi]; exact hg1)
+    have hst : stat s n = some true := by rw [stat_some hq1, hmax]
+    simp only [Option.isSome_some, if_true]
+    obtain ⟨h1, h2⟩ := safe_planRemoveV uf hi hst hnn he hreq hnp
+    exact ⟨planRemoveV_grp _ n p uf, h1, h2⟩
+
+/-- add part of OnPodUpdate (quota change) on the new group -/
+theorem addPart_ok {s : State} {n : Nat} {p : PodObj} (hnn : 0 ≤ p.req)
+    (hq : ∀ q, get? s n = some q → q.max.isSome = true) :
+    (∀ m ∈ (match stat s n with
+        | none => []
+        | some _ => if !(entry s n p.id).isSome && !p.ign then planAddTail n p else []), m.grp = n) ∧
+    FSafeRun (stat s n) p.id (focus (localOf s (cntOf s) p.id) n)
+      (match stat s n with
+        | none => []
+        | some _ => if !(entry s n p.id).isSome && !p.ign then planAddTail n p else []) ∧
+    FSettled (frun (stat s n) (focus (localOf s (cntOf s) p.id) n)
+      (match stat s n with
+        | none => []
+        | some _ => if !(entry s n p.id).isSome && !p.ign then planAddTail n p else [])) := by
+  cases hq1 : get? s n with
+  | none => simpa [stat_none hq1] using fsafe_nil s p.id n
+  | some q =>
+    have hst : stat s n = some true := by rw [stat_some hq1, hq q hq1]
+    cases he : entry s n p.id with
+    | some e => simpa [hst] using fsafe_nil s p.id n
+    | none =>
+      cases hign : p.ign with
+      | true => simpa [hst] using fsafe_nil s p.id n
+      | false =>
+        obtain ⟨h1, h2⟩ := safe_planAddTail hst hnn he
+        rw [hst] at h1 h2 ⊢
+        simpa using ⟨planAddTail_grp n p, h1, h2⟩
+
+theorem PodEv.safe {s : State} {ev : PodEv} (hpre : ev.Pre s) :
+    Safe (stat s) ev.id (localOf s (cntOf s) ev.id) (ev.plan s) := by
+  cases ev with
+  | add n p =>
+    have h0 := lsettled_cntOf s p.id
+    show Safe (stat s) p.id (localOf s (cntOf s) p.id) (planAddV (stat s n) (entry s n p.id) n p)
+    unfold planAddV
+    split
+    · exact h0
+    · cases hq : get? s n with
+      | none => rw [stat_none hq]; exact h0
+      | some q =>
+        have hst : stat s n = some true := by rw [stat_some hq, (hpre.quota q hq).1]
+        rw [hst]
+        simp only
+        by_cases hs : (entry s n p.id).isSome = true
+        · rw [if_pos hs]; exact h0
+        · rw [if_neg hs]
+          have he : entry s n p.id = none := by simpa using hs
+          obtain ⟨h1, h2⟩ := safe_planAddTail hst hpre.nonneg he
+          exact safe_of_focus (planAddTail_grp n p) h0 h1 h2
+  | del n p =>
+    have h0 := lsettled_cntOf s p.id
+    show Safe (stat s) p.id (localOf s (cntOf s) p.id) (planDeleteV (entry s n p.id) n p)
+    unfold planDeleteV
+    obtain ⟨h1, h2, h3⟩ := removePart_ok (s := s) (n := n) false (rfl : p.id = p.id) hpre.nonneg hpre.quota
+    exact safe_of_focus h1 h0 h2 h3
+  | upd a b np op =>
+    have h0 := lsettled_cntOf s np.id
+    have hid : op.id = np.id := hpre.sameId.symm
+    show Safe (stat s) np.id (localOf s (cntOf s) np.id)
+      (planUpdateV (stat s a) (entry s a np.id) (entry s b np.id) a b np op)
+    unfold planUpdateV
+    by_cases hba : b = a
+    · subst hba
+      simp only [if_true]
+      cases hq : get? s b with
+      | none => rw [stat_none hq]; exact h0
+      | some q =>
+        have hmax := hpre.newQuota q hq
+        have hst : stat s b = some true := by rw [stat_some hq, hmax]
+        rw [hst]
+        simp only
+        cases hign : np.ign with
+        | false =>
+          simp only [Bool.not_false, if_true]
+          by_cases hs : (entry s b np.id).isSome = true
+          · rw [if_pos hs]
+            obtain ⟨e, he⟩ := Option.isSome_iff_exists.mp hs
+            rw [he]
+            obtain ⟨q', hq', hg'⟩ := entry_some he
+            rw [hq] at hq'; cases hq'
+            obtain ⟨hreq, hnp⟩ := (hpre.oldQuota q hq).2 e (by rw [hid]; exact hg')
+            obtain ⟨h1, h2⟩ := safe_planSameV hst hpre.nnNew hpre.nnOld he hreq hnp
+            exact safe_of_focus (planSameV_grp _ b np op) h0 h1 h2
+          · rw [if_neg hs]
+            have he : entry s b np.id = none := by simpa using hs
+            obtain ⟨h1, h2⟩ := safe_planAddTail hst hpre.nnNew he
+            exact safe_of_focus (planAddTail_grp b np) h0 h1 h2
+        | true =>
+          simp only [Bool.not_true, Bool.false_eq_true, if_false]
+          obtain ⟨h1, h2, h3⟩ := removePart_ok (s := s) (n := b) false hid hpre.nnOld hpre.oldQuota
+          exact safe_of_focus h1 h0 h2 h3
+    · simp only [hba, if_false]
+      obtain ⟨h1, h2, h3⟩ := removePart_ok (s := s) (n := b) true hid hpre.nnOld hpre.oldQuota
+      obtain ⟨k1, k2, k3⟩ := addPart_ok (s := s) (n := a) hpre.nnNew hpre.newQuota
+      exact safe_of_focus2 hba h1 k1 h0 h2 h3 k2 k3
 
 end KoordVerif.C01
